@@ -115,6 +115,17 @@ chk("C18",
     "storage identity; orientation compared modulo 360, meta by JSON content. Histories are sampled, not enumerated.",
     "recorded traces of the real objects validated by TLC against a TLA+ heap specification; TLC-enumerated trim cases replayed", "DESIGN.md#c18")
 
+chk("C15",
+    "Every settings object is a vector of (storage, content) slots (containers and nested arrays); per operation the specification "
+    "states who may change, that new objects share no storage with existing settings objects - pristine default instances of all "
+    "eight classes are kept alive from the start of every history, so the defaults of later objects are observable - that arguments "
+    "and reloaded attributes arrive equal in content, that the class survives the dispatching reader and that processing with the "
+    "reloaded settings is bit-identical. Seeded random histories of the real API are validated step by step by TLC; a corrupted "
+    "trace must be rejected.",
+    "Trusted: TLC; spec/Heap.tla, TraceSettingsHeap.tla; object identity / np.shares_memory as storage identity, SHA-256 of a JSON "
+    "content normal form (list = tuple = array element-wise) as content identity. Histories are sampled.",
+    "recorded traces of the real settings objects validated by TLC against a TLA+ heap specification", "DESIGN.md#c15")
+
 def main():
     man = dict(
         version=1,
